@@ -77,6 +77,10 @@ def split_type(tok):
         if ":" in tok:
             return "datetime", tuple(int(x) for x in tok.split(":", 1)[1].split(","))
         return "datetime", DEFAULT_TMPL
+    if tok.startswith("annual"):
+        if ":" in tok:
+            return "annual", tuple(int(x) for x in tok.split(":", 1)[1].split(","))
+        return "annual", (1, 1)
     return tok, None
 
 
@@ -86,18 +90,33 @@ _TPATS = {}
 def create_t(tok, text, cname, fresh=False):
     """pattern creation through the public API for a type token (LocalDateTime: with the token's template value)"""
     ty, tm = split_type(tok)
-    if ty != "datetime":
+    if ty not in ("datetime", "annual"):
         return c07._fresh(ty, text, cname, "ISO") if fresh else c07.create(ty, text, cname)
     k = (tok, text, cname)
     if not fresh and k in _TPATS:
         return _TPATS[k]
     P = c07._P()
     T = c07._T()
-    tv = P.LocalDate(tm[0], tm[1], tm[2]).at(P.LocalTime.from_nanoseconds_since_midnight(tm[3]))
-    pat = T.LocalDateTimePattern.create(text, c07.culture(cname), tv)
+    if ty == "annual":
+        pat = T.AnnualDatePattern.create(text, c07.culture(cname), P.AnnualDate(tm[0], tm[1]))
+    else:
+        tv = P.LocalDate(tm[0], tm[1], tm[2]).at(P.LocalTime.from_nanoseconds_since_midnight(tm[3]))
+        pat = T.LocalDateTimePattern.create(text, c07.culture(cname), tv)
     if len(_TPATS) > 20000:
         _TPATS.clear()
     _TPATS[k] = pat
+    return pat
+
+
+def underlying(pat):
+    """the pattern object behind the public wrapper (DurationPattern keeps it in a private attribute)"""
+    for _ in range(4):
+        if hasattr(pat, "_underlying_pattern"):
+            pat = pat._underlying_pattern
+        elif hasattr(pat, "_DurationPattern__pattern"):
+            pat = pat._DurationPattern__pattern
+        else:
+            break
     return pat
 
 
@@ -123,10 +142,12 @@ def impl(t):
             return f"ok {hexs(s)} {c.index}"
     if op == "pat.calids":
         return hexs(SEP.join(c07._P().CalendarSystem.ids))
+    if op == "cu.names":
+        return names_conditions(_BLOB2NAME[t[1]], ascii_lower)
     if op == "pat.compile":
         tok, text, cname = t[1], unhex(t[2]), _BLOB2NAME[t[3]]
         pat = create_t(tok, text, cname, fresh=True)
-        return "ok " + describe(pat._underlying_pattern)
+        return "ok " + describe(underlying(pat))
     if op == "pat.fmt":
         tok, text, cname = t[1], unhex(t[2]), _BLOB2NAME[t[3]]
         ty = split_type(tok)[0]
@@ -154,6 +175,10 @@ def value_of(ty, a):
         return P.Offset.from_seconds(a[0])
     if ty == "datetime":
         return P.LocalDate(a[0], a[1], a[2]).at(P.LocalTime.from_nanoseconds_since_midnight(a[3]))
+    if ty == "annual":
+        return P.AnnualDate(a[0], a[1])
+    if ty == "duration":
+        return P.Duration._ctor(days=a[0], nano_of_day=a[1])
     raise ValueError(ty)
 
 
@@ -168,6 +193,10 @@ def fields_of(ty, x):
         if x.calendar.id != "ISO":
             return ["cal=" + x.calendar.id.replace(" ", "_"), x.year, x.month, x.day, x.nanosecond_of_day]
         return [x.year, x.month, x.day, x.nanosecond_of_day]
+    if ty == "annual":
+        return [x.month, x.day]
+    if ty == "duration":
+        return [x._floor_days, x._nanosecond_of_floor_day]
     raise ValueError(ty)
 
 
@@ -226,11 +255,14 @@ def oracle(t):
 # generators
 # ---------------------------------------------------------------------------------------------------
 
-MODEL_TYPES = ["time", "date", "offset", "datetime"]
+MODEL_TYPES = ["time", "date", "offset", "datetime", "annual", "duration"]
 
 
 def type_token(rng, ty):
     """the op's type token: LocalDateTime patterns mostly with the default template, sometimes another ISO one"""
+    if ty == "annual" and rng.random() < 0.3:
+        m = rng.randint(1, 12)
+        return f"annual:{m},{rng.choice([1, 28, 29, [31, 29, 31, 30, 31, 30, 31, 31, 30, 31, 30, 31][m - 1]])}"
     if ty != "datetime" or rng.random() < 0.7:
         return ty
     y = rng.choice([2000, 1999, 2024, 1, -5, 9999, -9998, 1950, 150, rng.randint(-9998, 9999)])
@@ -319,6 +351,10 @@ DT_FIXED_PATTERNS = ["uuuu-MM-dd HH:mm", "uuuu-MM-dd HH:mm:ss", "HH uuuu/MM/dd",
                      "uuuu-MM-dd'T'HH:mm:ss;FFFFFFFFF", "HH:mm", "uuuu-MM-dd h:mm t", "uuuu-MM-dd hh tt HH"]
 
 
+DURATION_EXTREMES = ["-1073741824:00:00:00", "-1073741824:00:00:00.000000001", "1073741823:23:59:59.999999999", "1073741824:00:00:00",
+                     "-25769803776:00:00", "25769803775:59:59.999999999", "25769803776:00:00", "-25769803776:00:00.000000001", "0:00:00:00", "-0:00:00:00"]
+
+
 def hour24_variants(rng, txt):
     """texts with an hour field of 24 (and midnight / non-midnight remainders) spliced into a formatted value"""
     out = []
@@ -348,7 +384,7 @@ def gen_engine_ops(ctx, npat, cnames, hostile):
     fmt_ops, parse_ops = [], []
     pats = []
     for _ in range(npat):
-        ty = rng.choices(MODEL_TYPES, [4, 4, 2, 6])[0]
+        ty = rng.choices(MODEL_TYPES, [4, 4, 2, 6, 2, 5])[0]
         pats.append((ty, c07.gen_custom(rng, ty)))
     for ty in MODEL_TYPES:
         for ch in c07.STANDARD[ty]:
@@ -369,13 +405,18 @@ def gen_engine_ops(ctx, npat, cnames, hostile):
         except Exception:  # noqa: BLE001 — creation is the compile suite's business
             continue
         info = c07.analyse(ty, c07.effective_text(ty, text, cn), cn)
-        for _ in range(4):
+        forced = []
+        if ty == "duration" and text in ("o", "j"):
+            forced = [(c07.DUR_MIN_DAYS, 0), (c07.DUR_MAX_DAYS, c07.NPD - 1), (c07.DUR_MIN_DAYS, 1), (-1, c07.NPD - 1), (-1, 0), (0, 0), (-1, 1), (0, c07.NPD - 1)]
+        for rep in range(4 + len(forced)):
             v = None
-            if info.ok and rng.random() < 0.6:
+            if rep >= 4:
+                v = forced[rep - 4]
+            elif info.ok and rng.random() < 0.6:
                 v = c07.representable(rng, ty, info, pat, "ISO")
             if v is None:
                 v = c07.gen_value(rng, ty)
-            a = [v] if ty not in ("date", "datetime") else list(v[1:])
+            a = list(v[1:]) if ty in ("date", "datetime") else (list(v) if ty in ("annual", "duration") else [v])
             fmt_ops.append(f"pat.fmt {tok} {h} {blob} " + " ".join(str(x) for x in a))
             try:
                 txt = pat.format(c07.mk(ty, v))
@@ -388,6 +429,8 @@ def gen_engine_ops(ctx, npat, cnames, hostile):
                     texts += ["", txt + "\0", txt.swapcase()]
             if ty == "datetime" and "H" in text:
                 texts += hour24_variants(rng, txt)
+            if ty == "duration" and text in ("o", "j"):
+                texts += rng.sample(c08.builtin_out_of_range("duration"), 12) + DURATION_EXTREMES
             for tx in texts:
                 try:
                     parse_ops.append(f"pat.parse {tok} {h} {blob} {hexs(tx)}")
@@ -424,6 +467,182 @@ def run_engine_correspondence(ctx, hostile):
         st = ctx.suites.get(k)
         if st:
             ctx.note(k + ":outside-modelled-subset(!dom)", st["skipped_dom"])
+
+
+# ---------------------------------------------------------------------------------------------------
+# NamesOK: the decidable name-table conditions of the text-step theorems, evaluated on the code's format info
+# ---------------------------------------------------------------------------------------------------
+
+def ascii_lower(s):
+    return "".join(chr(ord(ch) + 32) if "A" <= ch <= "Z" else ch for ch in s)
+
+
+def _tables(cname):
+    fi = c07.fmt_info(cname)
+    P = c07._P()
+    eras = list(P.CalendarSystem.iso.eras())
+
+    def tab(t, n):
+        t = list(t)
+        return [(x or "") for x in (t + [""] * n)[:n]]
+    return {"m3g": tab(fi.short_month_genitive_names, 14), "m3p": tab(fi.short_month_names, 14), "m4g": tab(fi.long_month_genitive_names, 14),
+            "m4p": tab(fi.long_month_names, 14), "d3": tab(fi.short_day_names, 8), "d4": tab(fi.long_day_names, 8),
+            "am": fi.am_designator or "", "pm": fi.pm_designator or "",
+            "era": [(0, n) for n in fi.get_era_names(eras[0])] + [(1, n) for n in fi.get_era_names(eras[1])],
+            "eraP": [fi.get_era_primary_name(eras[0]) or "", fi.get_era_primary_name(eras[1]) or ""]}
+
+
+def _table_ok(fmt, t1, t2, lo, hi, low):
+    """-> (ok, danger characters, [(K, name, index, extending candidate)])"""
+    ok, danger, exts = True, [], []
+    for K in range(lo, hi + 1):
+        a = fmt[K] if K < len(fmt) else None
+        if a is None:
+            ok = False
+            continue
+        if a == "":
+            ok = False
+        for t in (t1, t2 or []):
+            for p, c in enumerate(t):
+                if p != K and len(c) == len(a) and low(c) == low(a):
+                    ok = False
+        for t in (t1, t2 or []):
+            for p, c in enumerate(t):
+                if len(c) > len(a) and low(c[:len(a)]) == low(a):
+                    danger.append(low(c[len(a)]))
+                    exts.append((K, a, p, c))
+    return ok, danger, exts
+
+
+def names_analysis(cname, low):
+    """the NamesOK conditions with the case folding `low` (ascii_lower = the model's; str.lower = the code's)"""
+    T = _tables(cname)
+    out = {}
+    for cnt, g, p in ((3, "m3g", "m3p"), (4, "m4g", "m4p")):
+        t1, t2 = T[g], (None if T[p] == T[g] else T[p])
+        out[f"m{cnt}g"] = _table_ok(T[g], t1, t2, 1, 12, low)
+        out[f"m{cnt}p"] = _table_ok(T[p], t1, t2, 1, 12, low)
+    for cnt in (3, 4):
+        out[f"d{cnt}"] = _table_ok(T[f"d{cnt}"], T[f"d{cnt}"], None, 1, 7, low)
+    am, pm = T["am"], T["pm"]
+    for cnt in (1, 2):
+        if not am or not pm:
+            ok = True
+        elif cnt == 1:
+            ok = low(am[:1]) != low(pm[:1])
+        else:
+            L, S = (pm, am) if len(pm) > len(am) else (am, pm)
+            ok = low(L[:len(S)]) != low(S)
+        out[f"t{cnt}"] = (ok, [], [])
+    if not am and not pm:
+        dn = []
+    elif not am:
+        dn = [low(pm[:1])]
+    elif not pm:
+        dn = [low(am[:1])]
+    else:
+        dn = []
+    out["tdanger"] = dn
+    eok, edanger, eext = True, [], []
+    for e in (0, 1):
+        Pn = T["eraP"][e]
+        res = None
+        ds = []
+        for (e2, n) in T["era"]:
+            if len(n) <= len(Pn) and low(Pn[:len(n)]) == low(n):
+                res = (len(n) == len(Pn) and e2 == e)
+                break
+            if len(n) > len(Pn) and low(n[:len(Pn)]) == low(Pn):
+                ds.append(low(n[len(Pn)]))
+                eext.append((e, Pn, e2, n))
+        if not res or Pn == "":
+            eok = False
+        if res:
+            edanger += ds
+    out["era"] = (eok, edanger, eext)
+    return out
+
+
+def names_conditions(cname, low):
+    """reply of op cu.names"""
+    a = names_analysis(cname, low)
+    bits = "".join("1" if a[k][0] else "0" for k in ("m3g", "m3p", "m4g", "m4p", "d3", "d4", "t1", "t2", "era"))
+    dangers = ["".join(a[k][1]) for k in ("m3g", "m3p", "m4g", "m4p", "d3", "d4")] + ["".join(a["tdanger"]), "".join(a["era"][1])]
+    return bits + " " + hexs(SEP.join(dangers))
+
+
+def hazard_examples(cname):
+    """concrete (pattern, value) pairs, run on the real code, that do not round-trip because of the culture's name
+    tables (case folding as the code does it); at most one per kind"""
+    P, T = c07._P(), c07._T()
+    a = names_analysis(cname, str.lower)
+    cu = c07.culture(cname)
+    out = []
+
+    def q(x):
+        return "'" + x.replace("\\", "\\\\").replace("'", "\\'") + "'"
+
+    def try_(cls, ptext, v, kind):
+        try:
+            pat = cls.create(ptext, cu)
+            s = pat.format(v)
+            r = pat.parse(s)
+        except Exception as e:  # noqa: BLE001
+            out.append({"kind": kind, "pattern": ptext, "value": str(v), "raised": type(e).__name__})
+            return
+        if not r.success or r.value != v:
+            out.append({"kind": kind, "pattern": ptext, "value": repr(v), "text": s, "parsed": (repr(r.value) if r.success else "failure")})
+
+    for k, gen, cnt in (("m3p", False, 3), ("m3g", True, 3), ("m4p", False, 4), ("m4g", True, 4)):
+        ok, dn, exts = a[k]
+        if exts:
+            K, nm, p, c = exts[0]
+            try_(T.LocalDatePattern, ("dd " if gen else "") + "M" * cnt + q(c[len(nm):]) + " uuuu", P.LocalDate(2021, K, 5), "month-name-extended:" + k)
+    for k, cnt in (("d3", 3), ("d4", 4)):
+        ok, dn, exts = a[k]
+        if exts:
+            K, nm, p, c = exts[0]
+            try_(T.LocalDatePattern, "d" * cnt + q(c[len(nm):]) + " uuuu-MM-dd", P.LocalDate(2021, 3, K), "day-name-extended:" + k)  # 2021-03-01 is a Monday
+    if not a["t1"][0]:
+        try_(T.LocalTimePattern, "h:mm t", P.LocalTime(15, 30), "am-pm-first-characters-equal")
+    if not a["t2"][0]:
+        try_(T.LocalTimePattern, "h:mm tt", P.LocalTime(15, 30), "am-pm-designator-prefix")
+    ok, dn, exts = a["era"]
+    if not ok:
+        try_(T.LocalDatePattern, "yyyy gg MM dd", P.LocalDate(-5, 1, 8), "era-primary-name-misread")
+        try_(T.LocalDatePattern, "yyyy gg MM dd", P.LocalDate(5, 1, 8), "era-primary-name-misread")
+    return out
+
+
+def run_names(ctx):
+    """model-vs-harness agreement on the NamesOK conditions (ASCII folding) for the cultures of the run, and the list
+    of cultures whose tables fail them / carry extension hazards, with concrete non-round-tripping values"""
+    if not c07.model_available():
+        return
+    cnames = c07.culture_names(ctx, 40)
+    ops = []
+    for cn in cnames:
+        blob = culture_blob(cn)
+        if blob is not None:
+            ops.append(f"cu.names {blob}")
+    ctx.correspond("text.names", ops, impl, driver="drv_text")
+    failing, extended, examples = {}, {}, {}
+    for cn in cnames:
+        a = names_analysis(cn, str.lower)
+        bad = [k for k in ("m3g", "m3p", "m4g", "m4p", "d3", "d4", "t1", "t2", "era") if not a[k][0]]
+        ext = [k for k in ("m3g", "m3p", "m4g", "m4p", "d3", "d4", "era") if a[k][1]]
+        if bad:
+            failing[cn or "(invariant)"] = bad
+        if ext:
+            extended[cn or "(invariant)"] = {k: "".join(sorted(set(a[k][1]))) for k in ext}
+        if bad or any(k != "era" for k in ext):
+            ex = hazard_examples(cn)
+            if ex:
+                examples[cn or "(invariant)"] = ex[:3]
+    ctx.note("NamesOK:cultures-evaluated", len(cnames))
+    ctx.note("NamesOK:failing(tables that cannot be told apart)", failing)
+    ctx.note("NamesOK:extension-hazards(a following literal can continue a name)", dict(list(extended.items())[:60]))
+    ctx.note("NamesOK:concrete-non-round-trips", dict(list(examples.items())[:40]))
 
 
 def culture_hypotheses(ctx, cnames):
